@@ -390,11 +390,20 @@ def _check_proto(run, world, folder, mod, c):
     run.rule("R-FSM-CHK", "receiver checksum span / start byte == "
              "transmitter's")
     ifn = c.methods["_insert_checksum"][1]
+    # the transmitter's span, by evaluating _insert_checksum on a list of
+    # symbols: which elements are XOR-ed into the last slot
+    from ..wireval import WireEval, SelfObj, Sym, Xor
     tx = None
-    for n in ast.walk(ifn):
-        if isinstance(n, ast.Call) and unparse(n.func) == "reduce" and \
-                unparse(n.args[0]) == "xor":
-            tx = unparse(n.args[1]).replace(ifn.args.args[0].arg, "X")
+    syms = [Sym("s%d" % i) for i in range(6)]
+    lst = list(syms) + [None]
+    r_ = WireEval(world, folder, c, {"nbytes": 2, "sendtwice": False}).run(
+        ifn, {ifn.args.args[0].arg: lst} if ifn.args.args[0].arg != "self"
+        else {"self": SelfObj(c), ifn.args.args[1].arg: lst})
+    chk = lst[-1]
+    if isinstance(chk, Xor) and chk.const == 0:
+        idx = sorted(int(x.name[1:]) for x in chk.syms)
+        if idx == list(range(idx[0], idx[-1] + 1)) and idx[-1] == 5:
+            tx = "X[%d:-1]" % idx[0]
     rx = None
     rx_node = None
     for n in ast.walk(fn):
